@@ -207,15 +207,21 @@ Section Run.
     match goal with |- context [solver ?a ?b ?c ?d] => destruct (solver a b c d) as [[b0 dxu]|] eqn:Hs end; [|discriminate].
     apply Hshape in Hs.
     match goal with |- context [line_search ?O ?f ?X' ?y' ?l' ?t' ?w' ?u' ?dx' ?du' ?ph ?g ?s0] =>
-      destruct (line_search O f X' y' l' t' w' u' dx' du' ph g s0) as [[[s nw] nu]|] eqn:Hls end; [|discriminate].
-    intros H; inversion H; subst; clear H.
-    apply line_search_interior in Hls. destruct Hls as [Hi [Hnw Hnu]].
-    constructor; cbn [st_w st_u st_dobj].
-    - rewrite Hnw, axpy_length, firstn_length, Hs, Hlw. lia.
-    - rewrite Hnu, axpy_length, skipn_length, Hs, Hlw, Hlu. lia.
-    - exact Hi.
-    - apply gap_stage_lb; assumption.
-    - eapply Rle_trans; [exact Hnn | apply gap_stage_mono].
+      destruct (line_search O f X' y' l' t' w' u' dx' du' ph g s0) as [[[s nw] nu]|] eqn:Hls end.
+    - intros H; inversion H; subst; clear H.
+      apply line_search_interior in Hls. destruct Hls as [Hi [Hnw Hnu]].
+      constructor; cbn [st_w st_u st_dobj].
+      + rewrite Hnw, axpy_length, firstn_length, Hs, Hlw. lia.
+      + rewrite Hnu, axpy_length, skipn_length, Hs, Hlw, Hlu. lia.
+      + exact Hi.
+      + apply gap_stage_lb; assumption.
+      + eapply Rle_trans; [exact Hnn | apply gap_stage_mono].
+    - (* all trial steps rejected: the null step keeps the iterate *)
+      destruct (is_finite ROps _ && is_finite ROps _); [|discriminate].
+      intros H; inversion H; subst; clear H.
+      constructor; cbn [st_w st_u st_dobj]; auto.
+      + apply gap_stage_lb; assumption.
+      + eapply Rle_trans; [exact Hnn | apply gap_stage_mono].
   Qed.
 
   (* an exit through the stopping rule: the returned w is the current iterate, and the reported
@@ -232,7 +238,8 @@ Section Run.
       + eapply Rle_trans; [exact Hnn | apply gap_stage_mono].
       + exact Hst.
     - destruct (solver _ _ _ _) as [[b0 dxu]|]; [|discriminate].
-      destruct (line_search _ _ _ _ _ _ _ _ _ _ _ _ _) as [[[s nw] nu]|]; discriminate.
+      destruct (line_search _ _ _ _ _ _ _ _ _ _ _ _ _) as [[[s nw] nu]|]; [discriminate|].
+      destruct (is_finite ROps _ && is_finite ROps _); discriminate.
   Qed.
 
   Inductive reachable : nat -> ipstate (T := R) -> Prop :=
